@@ -84,6 +84,20 @@ CLAIMED["C05"] = dict(
     design="DESIGN.md section 3, C05",
 )
 
+CLAIMED["C07"] = dict(
+    category="other",
+    technique="static structural rules on typed HIR/MIR: diverging-arm set of the printer vs. sanitiser coverage, field-write facts on the name counter, total-dispatch and polarity checks on the materialisation",
+    text=("Decides shape conditions that any meaning-preserving materialisation must satisfy: the set U of kinds the printer "
+          "cannot print (read from its diverging arms) is filtered out of intersections by the sanitiser and must not pass it at "
+          "top level (1 known finding: Exclude<number,1> -> Not<1> -> printer panic); the generated-name counter is only "
+          "incremented, threaded by &mut from the frontend, and every helper definition returned is inserted with its result "
+          "propagated; tag / proper-subtype / atom dispatch has no value-returning catch-all; maybe_not is always called with "
+          "`!allowed` of the enclosing arm and Not wraps exactly the negative atoms of a clause."),
+    note=("Trusted: rustc typed HIR/MIR. Not decided: that the materialised Runtype denotes the same value set as the semantic "
+          "type (keyof / indexed-access projections, union-of-complements), which quantifies over all values."),
+    design="DESIGN.md section 3, C07",
+)
+
 NOT_APPLICABLE_REASON = {}
 
 
